@@ -34,15 +34,21 @@ def build_harness(name, variant, sources, libs=("Enc",), cxx=False, extra=(), de
         return exe
     san = [f for f in v["cflags"].split() if f.startswith("-fsanitize") and "fuzzer" not in f] + \
           (["-fno-omit-frame-pointer"] if "-fno-omit-frame-pointer" in v["cflags"] else [])
-    cc = v["cxx"] if cxx else v["cc"]
-    cmd = [cc, "-O1", "-g", "-D%s=1" % _b.GUARD, "-UNDEBUG", "-mavx2", "-msse4.1"] + list(defines) + san + inc_flags() + ["-I" + W] + srcs + \
-          ["-Wl,--start-group"] + archives + ["-Wl,--end-group"] + list(extra) + ["-lpthread", "-lm", "-o", exe]
-    if cxx:
-        cmd.insert(1, "-std=gnu++17")
+    base = ["-O1", "-g", "-D%s=1" % _b.GUARD, "-UNDEBUG", "-mavx2", "-msse4.1"] + list(defines) + san + inc_flags() + ["-I" + W]
     log = open(os.path.join(hdir, name + ".log"), "w")
+    objs = []
+    for s_ in srcs:
+        is_c = s_.endswith(".c")
+        comp = [v["cc"]] if is_c else [v["cxx"], "-std=gnu++17"]
+        o = os.path.join(hdir, name + "-" + os.path.basename(s_) + ".o")
+        r = subprocess.run(comp + base + ["-c", s_, "-o", o], stdout=log, stderr=subprocess.STDOUT)
+        if r.returncode != 0:
+            raise _b.BuildFailed("harness %s: %s failed to compile (see %s)" % (name, os.path.basename(s_), os.path.join(hdir, name + ".log")))
+        objs.append(o)
+    cmd = [v["cxx"] if cxx else v["cc"]] + san + objs + ["-Wl,--start-group"] + archives + ["-Wl,--end-group"] + list(extra) + ["-lpthread", "-lm", "-o", exe]
     r = subprocess.run(cmd, stdout=log, stderr=subprocess.STDOUT)
     if r.returncode != 0:
-        raise _b.BuildFailed("harness %s failed to build (see %s)" % (name, os.path.join(hdir, name + ".log")))
+        raise _b.BuildFailed("harness %s failed to link (see %s)" % (name, os.path.join(hdir, name + ".log")))
     return exe
 
 
